@@ -413,6 +413,9 @@ func (x *Exec) typed(st *State, s string, T types.Type) Val {
 }
 
 func (x *Exec) assumeTypeInv(st *State, s string, T types.Type) {
+	if x.pureEval > 0 {
+		return // only branch conditions belong to the path conditions of a pure evaluation
+	}
 	switch u := T.Underlying().(type) {
 	case *types.Basic:
 		if u.Info()&types.IsInteger != 0 {
